@@ -17,11 +17,11 @@ instance decEqExcept {ε α : Type} [DecidableEq ε] [DecidableEq α] : Decidabl
 def convertAssignmentBackLegacy (so : Sorter) (a : List Nat) : M (List Nat) :=
   backLoop so a 0 (List.replicate a.length 0)
 
-def assignLegacy (fuel : Nat) (pb : Problem) : M (List Nat) := do
+def assignLegacy (pb : Problem) : M (List Nat) := do
   check pb
   let so ← mkSorter pb
   let sv ← convert so pb
-  let p ← run sv fuel
+  let p ← run sv
   let a ← computeAssignment sv p
   convertAssignmentBackLegacy so a
 
